@@ -21,9 +21,13 @@ else
 fi
 rsync -a --delete --exclude 'sim/target-miri' --exclude '.git' /verif/ "$BASE/verif/"; RS=$?; [ $RS = 0 ] || [ $RS = 24 ] || exit 3
 CMD="$*"
+touch "$BASE/.start"
 unshare -m sh -c "mount --bind '$BASE/repo' /repo && mount --bind '$BASE/verif' /verif && cd /verif && $CMD"
 RC=$?
 if [ "$BACK" = 1 ]; then
-  rsync -a --include='*/' --include='meta.json' --include='RESULTS.md' --exclude='*' "$BASE/verif/seeded/" /verif/seeded/
+  # only what this run wrote: a slot's copy of everything else is as old as the slot's start, and copying
+  # it back would undo what other slots have recorded meanwhile
+  (cd "$BASE/verif/seeded" && find . \( -name meta.json -o -name RESULTS.md \) -newer "$BASE/.start" > "$BASE/.touched")
+  rsync -a --files-from="$BASE/.touched" "$BASE/verif/seeded/" /verif/seeded/
 fi
 exit $RC
